@@ -17,7 +17,7 @@ from . import persosim
 
 PROPERTY = "C17"
 TIERS = {
-    "quick": {"runs": 260, "budget_s": 115, "chunk": 3},
+    "quick": {"runs": 1000, "budget_s": 115, "chunk": 3},
     "thorough": {"runs": 10000, "budget_s": 900, "chunk": 6},
 }
 REQUIRED_PROBES = {
